@@ -33,7 +33,7 @@ Print Assumptions C01_library_layer.
    fragment (plain_envb: non-generic structs and enums of every shape — named, tuple, newtype, unit —
    with rename / rename_all / rename_all_fields / skip / struct-level tag, all four enum
    representations, fields of any library type expression over references to other definitions,
-   recursion included; no inline / flatten / optional / type / as overrides, which the corpus
+   recursion included, `inline` on fields of any such type; no flatten / optional / type / as overrides or generic definitions, which the corpus
    correspondence covers instead), for EVERY type expression, EVERY value and every serde recursion
    depth: what serde_json emits is, from some evaluation depth on, a member of the TypeScript type
    TS::name() reports, read against the declarations ts-rs generates for that environment. *)
@@ -44,6 +44,15 @@ Theorem C01_derive_layer :
       mono_ty t = true -> ser is_upper R n t v = Some j -> name_of R t = Ok a ->
       exists f0, forall f, (f0 <= f)%nat -> memberb (env_of is_upper is_alnum is_numeric R gf) f a j = true.
 Proof. exact derive_layer_member. Qed.
+
+(* and of the type TS::inline() reports, at every generator fuel at which inline() is defined *)
+Theorem C01_derive_layer_inline :
+  forall is_upper is_alnum is_numeric R gf,
+    plain_envb is_upper is_alnum is_numeric R gf = true ->
+    forall n g t v j a,
+      mono_ty t = true -> ser is_upper R n t v = Some j -> lib_inline R (gen is_upper is_alnum is_numeric R g) t = Ok a ->
+      exists f0, forall f, (f0 <= f)%nat -> memberb (env_of is_upper is_alnum is_numeric R gf) f a j = true.
+Proof. exact derive_layer_member_inline. Qed.
 
 Module C01_example.
 Definition fld (n : String.string) (t : rty) : field :=
@@ -62,7 +71,13 @@ Definition R : env :=
   [(lit "Node", DStruct (cat "Node" (Some Camel) None)
       (SNamed [fld "node_id" i32; fld "kids" (RVec (RNamed (lit "Node") [])); fld "shape" (ROption (RNamed (lit "Shape") []))]));
    (lit "Shape", DEnum (cat "Shape" None None) (Internal (lit "kind")) None
-      [var "Dot" SUnit; var "Box" (SNamed [fld "w" i32; fld "inner" (RWrap (RNamed (lit "Node") []))])])].
+      [var "Dot" SUnit; var "Box" (SNamed [fld "w" i32; {| f_ident := lit "inner"; f_ty := RWrap (RNamed (lit "Node") []); f_serde_ty := RWrap (RNamed (lit "Node") []);
+                                                 f_rename := None; f_skip := false; f_inline := false; f_flatten := false;
+                                                 f_optional := NotOptional; f_type := None; f_docs := []; f_skip_none := false |}])]);
+   (lit "Host", DStruct (cat "Host" None None)
+      (SNamed [{| f_ident := lit "s"; f_ty := RVec (RNamed (lit "Shape") []); f_serde_ty := RVec (RNamed (lit "Shape") []);
+                  f_rename := None; f_skip := false; f_inline := true; f_flatten := false;
+                  f_optional := NotOptional; f_type := None; f_docs := []; f_skip_none := false |}]))].
 Definition leafv (i : Z) (sh : value) := VStruct [VInt i; VSeq []; sh].
 Definition v : value :=
   VStruct [VInt 1; VSeq [leafv 2 VNone; leafv 3 (VSome (VVariant 0 []))];
@@ -81,4 +96,15 @@ Example C01_derive_nonvacuous :
     json_text j = lit "{""nodeId"":1,""kids"":[{""nodeId"":2,""kids"":[],""shape"":null},{""nodeId"":3,""kids"":[],""shape"":{""kind"":""Dot""}}],""shape"":{""kind"":""Box"",""w"":7,""inner"":{""nodeId"":4,""kids"":[],""shape"":null}}}"%string.
 Proof. split; [vm_compute; reflexivity|]. split; [reflexivity|]. eexists; eexists. repeat split; vm_compute; reflexivity. Qed.
 
+(* an inlined field: the host's declaration carries the union itself *)
+Example C01_derive_inline_nonvacuous :
+  let t := RNamed (lit "Host"%string) [] in
+  exists j d, ser C01_example.up C01_example.R 10 t (VStruct [VSeq [VVariant 0 []; VVariant 1 [VInt 7; C01_example.leafv 4 VNone]]]) = Some j /\
+    Rust.lookup C01_example.R (lit "Host"%string) = Some d /\
+    decl_text C01_example.up C01_example.al is_ascii_digit C01_example.R 10 d
+      = Ok (lit "type Host = { s: Array<{ ""kind"": ""Dot"" } | { ""kind"": ""Box"", w: number, inner: Node, }>, };"%string) /\
+    json_text j = lit "{""s"":[{""kind"":""Dot""},{""kind"":""Box"",""w"":7,""inner"":{""nodeId"":4,""kids"":[],""shape"":null}}]}"%string.
+Proof. eexists; eexists. repeat split; vm_compute; reflexivity. Qed.
+
 Print Assumptions C01_derive_layer.
+Print Assumptions C01_derive_layer_inline.
